@@ -266,7 +266,7 @@ func c03Run(r *fw.R, d c03Desc) {
 	feat := ""
 	if script != nil && d.Kind == "script" {
 		var fs []string
-		for _, f := range []string{"compressed", "bfinal", "fragmented", "empty-fragment", "many-empty-fragments", "ping-inside", "close-inside-message"} {
+		for _, f := range []string{"compressed", "bfinal", "fragmented", "empty-fragment", "many-empty-fragments", "ping-inside", "close-inside-message", "far-back-reference", "zero-mask-key"} {
 			if script.Features[f] {
 				fs = append(fs, f)
 			}
